@@ -121,8 +121,8 @@ def check_c14(pid, tier, replay):
         print("INFRA: spec/IsolationMC.tla did not print its operation table:", em["runs"][0].out[-1500:] if em["runs"] else "")
         return 3
     cex_h = [gi.behaviour_history(em["ops"][n], h, n) for (n, h, _) in em["cex"]]
-    if q and len(cex_h) > 400:
-        cex_h = sorted(cex_h, key=len)[:400]
+    if q and len(cex_h) > 600:
+        cex_h = sorted(cex_h, key=len)[:600]
     beh_h = [gi.behaviour_history(em["ops"][n], b, n) for (n, b) in em["beh"]]
     # leg A runs in the background while the library is driven
     pool = cf.ThreadPoolExecutor(max_workers=1)
@@ -133,6 +133,7 @@ def check_c14(pid, tier, replay):
         ("model_generated_behaviours", beh_h),
         ("exhaustive_interleavings", gi.exhaustive_executions(q, vc.seed()) if q else
             [h for a in gi.EMUS for b in gi.EMUS for h in gi.pair_executions(a, b)] +
+            [h for (a, b) in [(4, 4), (4, 5), (5, 4), (4, 2), (0, 4), (2, 2), (5, 5), (4, 0), (2, 4)] for h in gi.lfo_pair_executions(a, b)] +
             [h for (a, b, c) in [(1, 8, 4), (8, 4, 1), (4, 1, 8), (0, 2, 5), (3, 6, 2), (2, 5, 0)] for h in gi.triple_executions(a, b, c, 8, vc.seed())]),
         ("determinism_probes", gi.determinism_probes()),
         ("random_interleavings", [gi.random_execution(rng) for _ in range(260 if q else 4000)]),
